@@ -18,7 +18,7 @@ from pyvc.models import FmtPiece, SymStr
 from pyvc.spec import Registry
 from pyvc.values import Callback, Iter, NArr, Opaque, PList, SArr, Sym, fresh_name, kind_of, to_z3, zint
 
-DEPENDS = ["C18"]  # reset_index_ (ids/pids re-based on the first root, roots stay -1, attributes untouched)
+DEPENDS = ["C18", "C02"]  # reset_index_ (ids/pids re-based on the first root, roots stay -1, attributes untouched)
 
 IO = "swcgeom/core/swc_utils/io.py"
 SWC = "swcgeom/core/swc.py"
